@@ -23,6 +23,7 @@ def gen(rng, tier, i):
     p.cfg('Port', '4000:telnet')
     p.opt('epoll_seed', rng.randint(1, 1 << 30))
     nmax = rng.randint(1, 12)
+    failing = rng.random() < 0.3
     cid = [0]
     live = []
     charmode = set()
@@ -82,6 +83,9 @@ def gen(rng, tier, i):
                     for _ in range(n):
                         k = seq.get(c, 0) + 1; seq[c] = k
                         if rng.random() < 0.1: data += 'do cmd x%d_%da;cmd x%d_%db;cmd x%d_%dc\r\n' % (c, k, c, k, c, k)
+                        # (a command that ends in an uncaught error is a turn like any other: whoever else has a command
+                        # waiting in that cycle is served all the same)
+                        elif failing and rng.random() < 0.15: data += 'do rec c%d_%d;bomb %d err\r\n' % (c, k, 100 * c + k)
                         else: data += 'c%d_%d\r\n' % (c, k)
                 segs = rand_segs(rng, len(data)) if rng.random() < 0.4 else None
                 steps.append(send(c, data, segs))
